@@ -73,7 +73,7 @@ struct RefCc {
     unsigned mask;
     int32_t num[CC_OTHER];          // value of the numeric directives, indexed by type
     Txt priv, nocache, other;
-    bool excluded;                  // the input belongs to one of the KNOWN-FINDING candidate classes below
+    bool exAtoi, exQuoted;          // the input belongs to the class of known finding C29-atoi-values / C29-quoted-string
 };
 
 static int refType(const unsigned char *s, const unsigned b, const unsigned e)
@@ -87,7 +87,7 @@ static int refType(const unsigned char *s, const unsigned b, const unsigned e)
     return CC_OTHER;
 }
 
-// delta-seconds argument s[b..e): 0 = invalid/negative/too big (treated as absent), 1 = valid (v), 2 = excluded class
+// delta-seconds argument s[b..e): 0 = invalid/negative/too big (treated as absent), 1 = valid (v), 2 = invalid and in the class of known finding C29-atoi-values
 static int refNumber(const unsigned char *s, const unsigned b, const unsigned e, int32_t &v)
 {
     unsigned i = b;
@@ -99,14 +99,15 @@ static int refNumber(const unsigned char *s, const unsigned b, const unsigned e,
     if (i == e && i > d0) {                                       // ["-"] 1*DIGIT and nothing else
         if (neg) return 0;                                        // negative (also "-0")
         if (!huge && acc <= 0x7fffffffULL) { v = (int32_t)acc; return 1; }
-        // KNOWN-FINDING candidate: httpHeaderParseInt() is atoi(): a value in [2^31, 2^63) is silently reduced modulo 2^32, so
-        // "max-age=4294967296" is taken as max-age=0 and "max-age=4294967301" as 5 instead of being treated as absent.
-        // Excluded exactly where the reduced value is non-negative (elsewhere Squid does treat the directive as absent).
+        // KNOWN FINDING (known_findings.json, C29-atoi-values): httpHeaderParseInt() is atoi(): a value in [2^31, 2^63) is silently
+        // reduced modulo 2^32, so "max-age=4294967296" is taken as max-age=0 and "max-age=4294967301" as 5 instead of being
+        // treated as absent. The class is exactly where the reduced value is non-negative (elsewhere Squid does treat the
+        // directive as absent).
         const long long clamped = huge || acc > 0x7fffffffffffffffULL ? 0x7fffffffffffffffLL : (long long)acc;
         return (int32_t)(uint32_t)(unsigned long long)clamped >= 0 ? 2 : 0;
     }
-    // KNOWN-FINDING candidate: atoi() also skips leading C whitespace and a sign and ignores whatever follows the digits, so
-    // "max-age=5x", "max-age= 5", "max-age=+5", "max-age=5 5" are accepted as 5. Excluded: arguments that are not ["-"]1*DIGIT
+    // KNOWN FINDING (same id): atoi() also skips leading C whitespace and a sign and ignores whatever follows the digits, so
+    // "max-age=5x", "max-age= 5", "max-age=+5", "max-age=5 5" are accepted as 5. The class: arguments that are not ["-"]1*DIGIT
     // but from which atoi() reads a number.
     unsigned j = b;
     while (j < e && isCSpace(s[j])) ++j;
@@ -114,38 +115,45 @@ static int refNumber(const unsigned char *s, const unsigned b, const unsigned e,
     return (j < e && isDig(s[j])) ? 2 : 0;
 }
 
-// quoted-string argument s[b..e): 0 = invalid, 1 = valid (unescaped text in out), 2 = excluded class
-static int refQuoted(const unsigned char *s, const unsigned b, const unsigned e, Txt &out)
+// quoted-string argument s[b..e), strictly by RFC 7230 3.2.6: true = valid (unescaped text in out).
+// KNOWN FINDING (known_findings.json, C29-quoted-string): httpHeaderParseQuotedString() (a) mishandles quoted-pairs: after
+// skipping the backslash its scan for the end of the literal run stops at once on '"' or '\\' and nothing is appended, so an
+// escaped quote ends the string (no-cache="a\"b" is taken as "a"; no-cache="a\" with no closing quote is accepted), "a\\b"
+// loses its backslash, and a backslash before CR/LF is dropped and the line fold honoured; (b) stops at the closing quote and
+// ignores the rest of the argument (private="a"junk is taken as private="a"); (c) rejects HTAB, which is valid qdtext
+// (no-cache="a,\tb" is dropped, private="a\tb" loses its field list). cls is set for exactly these arguments: a backslash
+// followed by '"', '\\', HTAB, CR or LF inside the quotes; text after the closing quote; HTAB inside the quotes.
+static bool refQuoted(const unsigned char *s, const unsigned b, const unsigned e, Txt &out, bool &cls)
 {
     out.n = 0;
-    if (b >= e || s[b] != '"') return 0;
+    if (b >= e || s[b] != '"') return false;
     unsigned i = b + 1;
     for (;;) {
-        if (i >= e) return 0;                                     // no closing quote
+        if (i >= e) return false;                                 // no closing quote
         const unsigned char c = s[i];
-        if (c == '"') return i + 1 == e ? 1 : 3;                  // 3: closing quote followed by more text (decided by the caller)
-        if (c == '\\') {                                          // quoted-pair
-            if (i + 1 >= e) return 0;
+        if (c == '"') { if (i + 1 == e) return true; cls = true; return false; }   // more text after the closing quote: not a quoted-string
+        if (c == '\\') {                                          // quoted-pair = "\" ( HTAB / SP / VCHAR / obs-text )
+            if (i + 1 >= e) return false;
             const unsigned char x = s[i + 1];
-            if (x == '\t') return 4;
-            if (x == '"' || x == '\\' || x == '\r' || x == '\n') return 5;   // 5: quoted-pairs Squid re-reads as unescaped (decided by the caller)
-            if (x <= 0x1f || x == 0x7f) return 0;
+            if (x == '\r' || x == '\n') { cls = true; return false; }
+            if ((x <= 0x1f && x != '\t') || x == 0x7f) return false;
+            if (x == '"' || x == '\\' || x == '\t') cls = true;
             out.add(x); i += 2; continue;
         }
         if (c == '\r' || c == '\n') {                             // a folded line inside the string: [CR] LF (SP|HT) reads as one space
-            if (c == '\r') { ++i; if (i >= e || s[i] != '\n') return 0; }
-            ++i; if (i >= e || (s[i] != ' ' && s[i] != '\t')) return 0;
+            if (c == '\r') { ++i; if (i >= e || s[i] != '\n') return false; }
+            ++i; if (i >= e || (s[i] != ' ' && s[i] != '\t')) return false;
             out.add(' '); ++i; continue;
         }
-        if (c == '\t') return 4;                                  // 4: HTAB inside the string (decided by the caller)
-        if (c <= 0x1f || c == 0x7f) return 0;
+        if (c == '\t') cls = true;                                // HTAB is qdtext
+        else if (c <= 0x1f || c == 0x7f) return false;
         out.add(c); ++i;
     }
 }
 
 static RefCc reference(const unsigned char *s, const unsigned len)
 {
-    RefCc r; r.mask = 0; r.priv.n = r.nocache.n = r.other.n = 0; r.excluded = false;
+    RefCc r; r.mask = 0; r.priv.n = r.nocache.n = r.other.n = 0; r.exAtoi = r.exQuoted = false;
     for (int t = 0; t < CC_OTHER; ++t) r.num[t] = -1;
     unsigned i = 0;
     for (;;) {
@@ -169,27 +177,15 @@ static RefCc reference(const unsigned char *s, const unsigned len)
         case CC_MAX_AGE: case CC_S_MAXAGE: case CC_MIN_FRESH: case CC_STALE_IF_ERROR: case CC_MAX_STALE: {
             int32_t v = -1;
             const int k = hasArg ? refNumber(s, a, e, v) : 0;
-            if (k == 2) r.excluded = true;
-            else if (k == 1) { r.mask |= 1u << t; r.num[t] = v; }
+            if (k == 2) r.exAtoi = true;                          // (strictly: an invalid value, handled like k == 0)
+            if (k == 1) { r.mask |= 1u << t; r.num[t] = v; }
             else if (t == CC_MAX_STALE) { r.mask |= 1u << t; r.num[t] = HttpHdrCc::MAX_STALE_ANY; }   // max-stale needs no value: "any staleness"
             break;
         }
         case CC_PRIVATE: case CC_NO_CACHE: {
             Txt val; val.n = 0;
-            const int k = hasArg ? refQuoted(s, a, e, val) : 1;
-            // KNOWN-FINDING candidate: httpHeaderParseQuotedString() stops at the closing quote and ignores the rest of the
-            // argument: private="a"junk is taken as private="a". Excluded.
-            if (k == 3) r.excluded = true;
-            // KNOWN-FINDING candidate: HTAB is valid qdtext (RFC 7230) but httpHeaderParseQuotedString() rejects every octet <= 0x1F,
-            // so no-cache="a,\tb" is dropped / private="a\tb" loses its field list. Excluded.
-            if (k == 4) r.excluded = true;
-            // KNOWN-FINDING candidate: httpHeaderParseQuotedString() mishandles the quoted-pairs \" and \\ (after skipping the
-            // backslash its scan for the end of the literal run stops at once on '"' or '\\' and nothing is appended): an escaped
-            // quote ends the string (no-cache="a\"b" is taken as "a"; no-cache="a\" with no closing quote is accepted) and
-            // "a\\b" loses its backslash; a backslash before CR/LF is dropped and the line fold is honoured. Excluded: arguments
-            // containing a backslash followed by '"', '\\', CR or LF inside the quotes.
-            if (k == 5) r.excluded = true;
-            if (k == 1) { r.mask |= 1u << t; (t == CC_PRIVATE ? r.priv : r.nocache) = val; }
+            const bool k = hasArg ? refQuoted(s, a, e, val, r.exQuoted) : true;
+            if (k) { r.mask |= 1u << t; (t == CC_PRIVATE ? r.priv : r.nocache) = val; }
             else if (t == CC_PRIVATE) r.mask |= 1u << t;          // "to be safe ... always remember the 'private' part"
             break;
         }
@@ -218,14 +214,15 @@ static bool sameString(const String &a, const String &b)
 }
 static uint64_t strHash(const String &a) { uint64_t h = a.size(); for (size_t i = 0; i < a.size(); ++i) h = h * 131 + (unsigned char)a.rawBuf()[i]; return h; }
 
+static bool onlyAtoi = false, onlyQuoted = false;    // set by c29_known_atoi / c29_known_quoted_string only
 static void checkCc(const unsigned char *text, const unsigned len, const bool allValues = false)
 {
     vf_quiet();
     for (unsigned i = 0; i < len; ++i) vf_assume(text[i] != 0);   // a header field value cannot contain NUL
     const RefCc ref = reference(text, len);
-#ifndef C29_SHOW_FINDINGS      // (spec: defines=["C29_SHOW_FINDINGS"] makes the check report the excluded classes as violations)
-    vf_assume(!ref.excluded);
-#endif
+    // the two recorded finding classes are examined, with the same strict assertions, by c29_known_atoi / c29_known_quoted_string
+    // only; every other entry excludes exactly them
+    vf_assume(ref.exAtoi == onlyAtoi && ref.exQuoted == onlyQuoted);
     String value;
     value.assign(reinterpret_cast<const char *>(text), (int)len);
     HttpHdrCc cc;
@@ -240,6 +237,7 @@ static void checkCc(const unsigned char *text, const unsigned len, const bool al
     vf_assert(ref.priv.n <= MAXTXT && sameText(cc.private_, ref.priv), "private carries exactly the quoted field list");
     vf_assert(ref.nocache.n <= MAXTXT && sameText(cc.no_cache, ref.nocache), "no-cache carries exactly the quoted field list");
     vf_assert(ref.other.n <= MAXTXT && sameText(cc.other, ref.other), "unrecognised directives are kept verbatim, in order");
+    if (onlyAtoi || onlyQuoted) return;                           // known entries: the strict parse assertions above and nothing else
     if (!ok) { vf_reach("none"); WITNESS_POINT(); return; }
     // ---- pack and parse again
     // one path per parsed numeric value: printing a symbolic number (64-bit division chain in the printf model) is what the solver
@@ -330,8 +328,17 @@ extern "C" void c29_any(void)
     checkCc(in, n);
 }
 
-#ifdef C29_SHOW_FINDINGS
-// not in a tier: concrete witnesses of two excluded classes
-FAMILY(c29_show_quoted_pair, "no-cache=\"a\\\"b\"")      // no-cache="a\"b"  -> Squid: no_cache == "a"
-FAMILY(c29_show_wrap, "max-age=4294967296")              // -> Squid: max-age=0
-#endif
+// KNOWN FINDING (known_findings.json, C29-atoi-values): leniency ('5x', ' 5', '+5') and wrap of values >= 2^31
+extern "C" void c29_known_atoi(void)
+{
+    onlyAtoi = true;
+    static const char *const l[2] = { "max-age=\x01\x01", "max-age=429496729\x01" };
+    const char *t = l[vf_concretize(vf_range(0, 1, "family"))];
+    unsigned char in[MAXTXT]; unsigned n = 0;
+    for (; *t; ++t) in[n++] = *t == '\x01' ? vf_nondet_u8("b") : (unsigned char)*t;
+    in[n] = 0;
+    checkCc(in, n);
+}
+// KNOWN FINDING (known_findings.json, C29-quoted-string): quoted-pairs, text after the closing quote, HTAB
+FAMILY(c29_known_quoted_string_, "no-cache=\"\x01\x01\"")
+extern "C" void c29_known_quoted_string(void) { onlyQuoted = true; c29_known_quoted_string_(); }
